@@ -36,6 +36,12 @@ theorem wellformed_response_partial (cfg : Config) (env : Env) (tbl : Table) (in
     WellFormedBody (inp.batch? cfg).isSome (handleInput cfg env tbl inp).body :=
   wellformed cfg env tbl inp (Or.inr hno)
 
+/- Full-strength statement for the unchanged server, FALSE (refuted just below), kept for the record:
+     theorem wellformed_response_juno (env : Env) (tbl : Table) (inp : Input) :
+       WellFormedBody (inp.batch? junoCfg).isSome (handleInput junoCfg env tbl inp).body
+   It becomes `wellformed_response` once jsonrpc/server.go writes "result":null for a nil result
+   (proposed-fixes/C11-nil-result.diff). -/
+
 /-- every handler returns `(nil, nil)`; one method `m` without parameters -/
 def nilEnv : Env := { decode := fun _ v => some v, zero := fun _ => .null, call := fun _ _ => {} }
 def oneMethod : Table := [{ name := "m", params := [] }]
@@ -89,6 +95,12 @@ theorem silent_iff_all_notifications_partial (env : Env) (tbl : Table) (inp : In
   have : ∀ s : Stage, s.noReply junoCfg = true ↔ (s.isNotification = true ∧ s.call?.isSome = true) := by
     intro s; cases s <;> simp [Stage.noReply, Stage.isNotification, Stage.call?, junoCfg]
   simp only [this]
+
+/- Full-strength statement for the unchanged server, FALSE (refuted just below), kept for the record:
+     theorem silent_iff_all_notifications_juno (env : Env) (tbl : Table) (inp : Input) :
+       (handleInput junoCfg env tbl inp).body = none ↔
+         ∃ es, inp.entries junoCfg = some es ∧ ∀ e ∈ es, (stageOf env tbl e).isNotification = true
+   It becomes `silent_iff_all_notifications` with proposed-fixes/C11-notification-error-reply.diff. -/
 
 /-- DEFECT (unchanged server): the notification `{"jsonrpc":"2.0","method":"nope"}` is answered with
 a -32601 error object. -/
@@ -173,6 +185,21 @@ theorem positional_named_same_args (env : Env) (m : Method) (vs : List Json)
       buildArguments env (some (.obj ((m.params.map (·.name)).zip vs))) m :=
   positional_named env m vs hnd htail hmin hmax
 
+/-! ## 4b. What a plainly written Request object decodes to -/
+
+/-- Go's struct decoding (case-folded names, duplicates, `null`, type errors) collapses to the
+obvious reading for a Request object written the ordinary way (no member name twice, none that
+merely case-folds onto jsonrpc/method/params/id): the four members are looked up by name; an
+ill-typed `jsonrpc` or `method` makes the value undecodable; absent members and `null` are zero. -/
+theorem decodeRequest_plain_object (kvs : List (String × Json)) (hp : PlainMembers kvs) :
+    decodeRequest (.obj kvs) =
+      match stringField (member kvs "jsonrpc"), stringField (member kvs "method") with
+      | some v, some m =>
+        some { version := v, method := m,
+               params := (member kvs "params").bind storeAny, id := (member kvs "id").bind storeAny }
+      | _, _ => none :=
+  decodeRequest_plain kvs hp
+
 /-! ## 5. Batch recognition -/
 
 /-- FULL (repaired `peekLimit = none`): every input whose first non-blank byte is `[` is handled as
@@ -186,6 +213,10 @@ missing: see `batch_after_128_blanks_not_recognised`. -/
 theorem array_input_is_batch_partial (inp : Input) (h : inp.firstIsBracket = true)
     (hws : inp.leadWs < 128) : isBatch junoCfg inp = true := by
   rw [isBatch_iff]; refine ⟨h, ?_⟩; intro n hn; simp [junoCfg] at hn; omega
+
+/- Full-strength statement for the unchanged server, FALSE (refuted just below), kept for the record:
+     theorem array_input_is_batch_juno (inp : Input) (h : inp.firstIsBracket = true) : isBatch junoCfg inp = true
+   It becomes `array_input_is_batch` with proposed-fixes/C11-batch-after-blanks.diff. -/
 
 /-- DEFECT (unchanged server): 128 blanks followed by a valid one-element batch: one -32700 error
 object instead of the array of responses, and the handler does not run. -/
@@ -212,6 +243,11 @@ def subTable : Table :=
   [{ name := "subtract", params := [{ name := "minuend" }, { name := "subtrahend" }] },
    { name := "opt", params := [{ name := "a" }, { name := "b", optional := true }] }]
 
+example : PlainMembers [("jsonrpc", .str "2.0"), ("method", .str "m"), ("extra", .null), ("id", .num "1")] := by
+  refine ⟨by decide, ?_⟩
+  intro kv hkv
+  simp only [List.mem_cons, List.mem_nil_iff, or_false] at hkv
+  rcases hkv with rfl | rfl | rfl | rfl <;> simp <;> decide
 example : NoNilResult echoEnv := fun _ _ => Or.inl rfl
 example : ResultsOk { junoCfg with nullForNilResult := true } nilEnv := Or.inl rfl
 example : OptionalTail [{ name := "a" }, { name := "b", optional := true }] := by simp [OptionalTail]
